@@ -238,10 +238,13 @@ def classify(h, so, jd, is_twin):
 
 
 def extract_playback(text):
-    m = re.search(r"Concrete playback unit test for `([^`]+)`:\s*```\s*(.*?)```", text, re.S)
-    if not m:
+    """All concrete-playback tests Kani printed for the harness, except those generated for
+    `cover` witnesses (those replay a *satisfied* witness, not the failed check)."""
+    blocks = re.findall(r"Concrete playback unit test for `([^`]+)`:\s*```\s*(.*?)```", text, re.S)
+    keep = [b for (_h, b) in blocks if "Check for `cover`" not in b]
+    if not keep:
         return None, None
-    return m.group(1), m.group(2)
+    return blocks[0][0], "\n".join(keep)
 
 
 def playback_for(crate, features, harness, timeout_s, mem_gb):
@@ -266,7 +269,7 @@ def native_replay(crate, features, harness, test_src):
     try:
         for prof in ([], ["--release"]):
             env = dict(ENV, CARGO_TARGET_DIR=os.path.join(KANI_DIR, f"playback-{crate}"))
-            cmd = ["cargo", "kani", "playback", "-Z", "concrete-playback", "-Z", "stubbing"] + feat_args(features) + \
+            cmd = ["cargo", "kani", "playback", "-Z", "concrete-playback", "-Z", "stubbing", "--lib"] + feat_args(features) + \
                   ["--", "kani_concrete_playback"]
             if prof:
                 # `cargo kani playback` has no --release: give the dev profile release settings via env
@@ -278,7 +281,10 @@ def native_replay(crate, features, harness, test_src):
             out = r.stdout + r.stderr
             outs.append(out[-3000:])
             ran = re.search(r"test result: (\w+)\. (\d+) passed; (\d+) failed", out)
-            repro.append(bool(ran and int(ran.group(3)) > 0))
+            # a harness that aborts the test process (e.g. a panic inside a destructor) is a reproduction too,
+            # but only if no test summary was printed at all for the lib test binary
+            crashed = (ran is None) and re.search(r"\(signal: \d+", out) and "running" in out
+            repro.append(bool((ran and int(ran.group(3)) > 0) or crashed))
     finally:
         open(gfile, "w").write("")
     return repro, outs
@@ -373,7 +379,7 @@ def run_property(prop, tier, jobs, only, seed, timeout_override=0):
 
     # classify
     new_timings = {}
-    report, violations, known_hits, inconclusive = [], [], [], []
+    report, violations, known_hits, inconclusive, extra_cex = [], [], [], [], []
     for h, r in sorted(results.items()):
         fn = h.split("::")[-1]
         is_twin = bool(re.match(r"c\d\d\w*?_(x|xq)_", fn))
@@ -388,7 +394,13 @@ def run_property(prop, tier, jobs, only, seed, timeout_override=0):
                  "cbmc": (r["jd"] or {}).get("cbmc_stats", {}),
                  "repo_functions": (r["jd"] or {}).get("repo_functions", [])}
         report.append(entry)
-        if verdict == "cex":
+        if verdict == "cex" and violations:
+            # one reproduced violation decides the run; further counterexamples are listed, not replayed
+            entry["verdict"] = "cex_not_replayed"
+            entry["reason"] = "counterexample (not replayed: a violation of this property was already reproduced): " + reason
+            log(f"  counterexample in {h}: {reason}  (not replayed)")
+            extra_cex.append(entry)
+        elif verdict == "cex":
             log(f"  counterexample in {h}: {reason}")
             hn, test_src = playback_for(r["crate"], r["features"], h, per_h_timeout, mem_gb)
             if not test_src:
@@ -451,6 +463,7 @@ def run_property(prop, tier, jobs, only, seed, timeout_override=0):
                         for e in report],
             "known_findings_hit": [{"id": k["id"], "harness": e["harness"]} for k, e in known_hits],
             "inconclusive": [{"harness": e["harness"], "reason": e["reason"]} for e in inconclusive],
+            "further_counterexamples_not_replayed": [e["harness"] for e in extra_cex],
         },
         "assumptions": cfg["assumptions"],
         "wall_s": round(time.time() - t0, 1),
